@@ -339,12 +339,30 @@ _LANG4 = ("Lang.tla / LangGen.tla also cover records (literal, field access, upd
           "variable, callee expressions with stateful call sites, two output channels")
 EXTRA4 = {
     "C01": _LANG4 + "; arrays, numeric match and a recursive function are generated too (outside C02's list: back end against back end only).",
-    "C02": _LANG4 + "; the random generator produces records as well.",
+    "C02": _LANG4 + "; the random generator produces records as well. The state-site position table (lib/sitepos.py) compares a "
+           "stateful call written inside any expression form with the same call bound by a let first (Lockstep.tla).",
     "C18": _LANG4 + ", arrays, numeric match and a recursive function (the latter three: generated Rust against the VM only), at budgets one rustc run per program allows.",
     "C16": "Field names are renamed as well (Lang.RenameE and the source transformation); LangGen jobs over records whose initialisers "
            "assign a shared variable; the record table includes initialisers with side effects (literal, update, parameter pack) and "
-           "record patterns (same / swapped order, annotated result types, global patterns).",
+           "record patterns (same / swapped order, annotated result types, global patterns); a block-scope table renames a binder "
+           "declared inside a nested block (after a statement, in an if arm, a lambda body, ...) to the name of an outer variable.",
     "C07": "EditSwap.tla also has saves that carry two edits (delete a voice and insert another elsewhere; delete two voices).",
+    "C03": "The state-site position table (lib/sitepos.py: a stateful call written in every sub-expression slot of every expression "
+           "form, alone and next to further sites, in dsp and in a helper called twice) runs under the same contract.",
+    "C05": "Every shape with a delay is also built with delay lengths that are not whole numbers; the recorded accesses of the "
+           "state-site position table are validated against the published layout.",
+    "C06": "Special values in the state cells (NaN, infinities, signed zeros, denormals, huge values in self / mem / delay / "
+           "tuple-valued self), every split point, swapped against an uninterrupted twin.",
+    "C08": "Displaced-survivor pairs: subtrees removed in front of a survivor and added behind it in one sibling list (and the "
+           "mirror image), judged by MaximalAtRoot.",
+    "C11": "One-shot multisets of 2-4 tasks are replayed in every order of the scheduling calls; all one-shot tasks of a "
+           "configuration as one closure object that captures a parameter, scheduled at every task's time.",
+    "C12": "Constructs in which a closure is scheduled while another reference to it stays in use.",
+    "C14": "Comments on the trailing comma of a list, with a postfix operator or another comment behind the list.",
+    "C15": "Sum types sharing constructor names; one program with its type declared in module a / b / c / at top level / in two "
+           "modules and mentioned by its bare name.",
+    "C17": "Three-level direct references (n::h::c from inside m by path / use / wildcard, from a sibling module, from the root) "
+           "over the pub flags of all three levels.",
     "C10": "Templates whose hole stands inside the binder's own definition (let, function-valued let, letrec that does not call itself).",
     "C19": "Rounds in which all eight threads are consumers of the compiler's counters (fresh temporaries of the staging translation "
            "in lets over 16 sibling nested tuple patterns, type variables of many let-polymorphic definitions).",
